@@ -257,6 +257,15 @@ std::optional<sqf::runtime::fileio::pathinfo> sqf::fileio::impl_default::get_inf
     return {};
 }
 
+// The virtual path (without leading separator) of an entry of a PBO. Inside
+// archives, prefix and entry names are separated by backslashes.
+static std::filesystem::path pbo_entry_path(std::string prefix, std::string name)
+{
+    std::replace(prefix.begin(), prefix.end(), '\\', '/');
+    std::replace(name.begin(), name.end(), '\\', '/');
+    return std::filesystem::path("/" + prefix + "/" + name).lexically_normal().relative_path();
+}
+
 void sqf::fileio::impl_default::add_pbo_mapping(rvutils::pbo::pbofile& pbo)
 {
     if (m_pbos.find(pbo.path().string()) != m_pbos.end())
@@ -272,14 +281,17 @@ void sqf::fileio::impl_default::add_pbo_mapping(rvutils::pbo::pbofile& pbo)
     }
 
     m_pbos[pbo.path().lexically_normal().string()] = pbo;
-    std::filesystem::path prefix(*prefix_optional);
 
 
     // We need to register all files with the virtual pathing
     for (auto& file_desc : pbo.files())
     {
         // Construct file path
-        auto file_path = (prefix / file_desc.name).lexically_normal();
+        auto file_path = pbo_entry_path(*prefix_optional, file_desc.name);
+        if (file_path.empty())
+        {
+            continue;
+        }
         auto path_iter = file_path.begin();
 
         // Navigate to last available virtual file node from root node
@@ -417,11 +429,16 @@ std::string sqf::fileio::impl_default::read_file(sqf::runtime::fileio::pathinfo 
             auto prefix = prefix_optional.value();
             auto pbo_path = info.virtual_;
 
-            if (pbo_path.length() > prefix.length() + 1)
+            // Find the entry this virtual path was registered for in add_pbo_mapping
+            auto wanted = std::filesystem::path("/" + info.virtual_).lexically_normal().relative_path();
+            for (auto& file_desc : res->second.files())
             {
-                pbo_path = pbo_path.substr(prefix.length() + 1);
+                if (pbo_entry_path(prefix, file_desc.name) == wanted)
+                {
+                    pbo_path = file_desc.name;
+                    break;
+                }
             }
-            std::transform(pbo_path.begin(), pbo_path.end(), pbo_path.begin(), [](char c) -> char { return c == '/' ? '\\' : c; });
 
             rvutils::pbo::pbofile::reader reader;
             if (res->second.read(pbo_path, reader))
